@@ -68,13 +68,18 @@ def limit_scenarios(tier):
         for n in (65535, 65536):
             src = "let OBS = [];\nfn f() { [%s] }\npush(OBS, len(f()));\n" % ",".join("0" for _ in range(n))
             out.append(("array-elements=%d" % n, "Array", 1, n, src, n, ["ok", "rterror"]))
-        # jump distance: an if whose branch spans more than 65535 bytes
-        for nst in (21000, 22000):
-            body = " ".join("%d;" % (j % 10) for j in range(nst))
-            src = "let OBS = [];\nfn f(c) { if c { %s 1 } else { 2 } }\npush(OBS, f(false));\n" % body
-            # bytes of the branch: nst * 4 (Constant + Pop) + ...; the jump target is past them
-            needed = 3 + nst * 4 + 3 + 3
-            out.append(("jump-distance~%d" % needed, "Jump", 1, needed, src, 2, ["ok"]))
+    # jump distance: forward jumps (patched after their target is known) over a branch of just under / over 65535 bytes
+    sizes = (16300, 16500) if tier == "quick" else (16300, 16370, 16395, 16500, 22000)
+    for nst in sizes:
+        body = " ".join("%d;" % (j % 10) for j in range(nst))
+        needed = 3 + nst * 4 + 3 + 3
+        src = "let OBS = [];\nfn f(c) { if c { %s 1 } else { 2 } }\npush(OBS, f(false));\n" % body
+        out.append(("jump-distance-if~%d" % needed, "Jump", 1, needed, src, 2, ["ok"]))
+        src = "let OBS = [];\nfn f(c) { while c { %s } 7 }\npush(OBS, f(false));\n" % body
+        out.append(("jump-distance-while-exit~%d" % needed, "Jump", 1, needed, src, 7, ["ok"]))
+        if tier == "thorough":
+            src = "let OBS = [];\nfn f(c) { match c { true => { %s 1 }, _ => 3 } }\npush(OBS, f(false));\n" % body
+            out.append(("jump-distance-match-arm~%d" % needed, "Jump", 1, needed, src, 3, ["ok"]))
     return out
 
 
@@ -157,6 +162,25 @@ def run(rep, tier, seed):
             ev = raw["trace"][v["ipat"] - 1] if 0 < v["ipat"] <= len(raw["trace"]) else None
             rep.disagree("vm-fetch %s op-before=%s" % (v["ipok"], raw["trace"][v["ipat"] - 2][3] if v["ipat"] > 1 else None),
                          {"src": it["src"], "event": ev, "prev": raw["trace"][v["ipat"] - 2] if v["ipat"] > 1 else None})
+    # the same executions in lock step with the machine specification: every operand-bearing instruction must have
+    # the effect its encoded operand prescribes (constant / slot / jump target / element count actually used)
+    from .. import vmrun
+    mrecs = vmrun.from_raw([it for it in items if "raw" in it], widths, with_prog=False)
+    mverd, mres = vmrun.validate(mrecs)
+    rep.add_tlc(mres)
+    rep.cov["traces_validated_against_impl"] += len(mrecs)
+    mcounts = {}
+    for it in items:
+        v = mverd.get(it["id"])
+        if not v:
+            continue
+        mcounts[v["v"]] = mcounts.get(v["v"], 0) + 1
+        if v["v"] == "diverged" and v["why"] in ("ip", "opcode", "function of the current frame", "top of stack"):
+            rep.disagree("vm-operand %s" % vmrun.describe(v, it["raw"]),
+                         {"src": it["src"], "verdict": v, "events": it["raw"]["trace"][max(0, v["at"] - 3):v["at"]]})
+        elif v["v"] == "invariant" and v["why"].startswith("FetchAligned"):
+            rep.disagree("vm-fetch-aligned %s" % vmrun.describe(v, it["raw"]), {"src": it["src"], "verdict": v})
+    rep.notes["machine_level_verdicts"] = mcounts
     rep.notes["vm_trace_events"] = events
     rep.notes["distinct_opcodes_executed_in_traces"] = len(ops_seen)
     rep.cov["distinct_nontrivial"] = len(sweep["sample"]) + len(scen) + len(trecs)
